@@ -1,13 +1,22 @@
 #!/bin/bash
-# usage: devmut.sh <PROP:RUNS> <patch.diff | -R:commit>   -- development aid: apply a change to /repo, run the in-process dev loop, undo.
+# usage: [ENGINE=race] devmut.sh <PROP:RUNS> <patch.diff | -R:commit | none>   -- development aid: apply a change to /repo, run the in-process dev loop, undo.
 export GOFLAGS=-mod=mod GOPROXY=off GOSUMDB=off GOTOOLCHAIN=local
 spec="$1"; patch="$2"
 cd /repo || exit 2
 if [ -n "$(git status --porcelain --untracked-files=no)" ]; then echo "/repo not clean"; exit 2; fi
 case "$patch" in
+  none) ;;
   -R:*) git show "${patch#-R:}" | git apply -R || exit 2;;
   *) git apply "$patch" || exit 2;;
 esac
 git diff --stat | tail -1
-cd /verif/sim && VERIF_SCRATCH=/verif/.build VERIF_DEV=$spec VERIF_DEV_TIER=$VERIF_DEV_TIER GOMAXPROCS=1 timeout 900 go1.26.8 test -count=1 -v -run TestDev . 2>&1 | grep "^VIOL\|^infra\|^runs\|rror\|panic\|undefined\|FAIL" | cut -c1-260
-cd /repo && git checkout -- . 
+cd /verif/sim
+D=$(mktemp -d /verif/.build/devmut.XXXXXX)
+if [ "$ENGINE" = race ]; then
+  go1.26.8 test -c -race -o $D/t.test . 2>&1 | tail -5
+  GORACE="log_path=$D/race halt_on_error=0" VERIF_SCRATCH=$D VERIF_DEV=$spec VERIF_DEV_TIER=$VERIF_DEV_TIER GOMAXPROCS=4 timeout 900 $D/t.test -test.run TestDev -test.v -test.timeout 0 2>&1 | grep "^VIOL\|^infra\|^runs\|rror\|panic\|undefined\|FAIL" | cut -c1-260
+else
+  VERIF_SCRATCH=$D VERIF_DEV=$spec VERIF_DEV_TIER=$VERIF_DEV_TIER GOMAXPROCS=1 timeout 900 go1.26.8 test -count=1 -v -timeout 0 -run TestDev . 2>&1 | grep "^VIOL\|^infra\|^runs\|rror\|panic\|undefined\|FAIL" | cut -c1-260
+fi
+/bin/rm -rf "$D"
+cd /repo && git checkout -- .
